@@ -470,7 +470,7 @@ def degenerate():
 
 def deprecated_shapes():
     """(text, allowed diagnostic lines): deprecated tag form with no parameter / tag before it, something after it."""
-    return [(t, info['offending']) for t, info in B.deprecated_tag_blocks()]
+    return [(t, info['offending']) for t, info in B.deprecated_tag_blocks() + B.odd_tag_blocks()]
 
 
 def _work_texts(chunk):
@@ -737,7 +737,7 @@ def run(ctx):
     ctx.set(rule='(i) every string over %r up to the stated length as the annotation field of the identifier / '
                  'parameter / Returns line of a fixed skeleton (inline and on a continuation line); (ii) every single '
                  'edit (20 insertable characters x every position, every deletion, every truncation, every line '
-                 'duplicated/deleted/swapped) of %d well-formed blocks from C10\'s generator; (iii) %d degenerate blocks and %d ordinary blocks with a deprecated tag form. '
+                 'duplicated/deleted/swapped) of %d well-formed blocks from C10\'s generator; (iii) %d degenerate blocks and %d ordinary blocks with a deprecated or unusually spelled tag line. '
                  'Each input is parsed by the real parse_comment_blocks between two clean blocks with display on and '
                  'off and judged by clauses (a)-(d) of the module docstring. states = distinct inputs, transitions = '
                  'extension/edit steps, non-trivial = inputs with a decided annotation outcome or at least one judged '
